@@ -2,7 +2,10 @@ use std::collections::HashSet;
 use std::hash::Hash;
 #[cfg(feature = "gssapi")]
 use std::sync::RwLock;
+#[cfg(not(ldap3_verif))]
 use std::sync::{Arc, Mutex};
+#[cfg(ldap3_verif)]
+use {crate::verif::sync::Mutex, std::sync::Arc};
 use std::time::Duration;
 
 use crate::adapters::{EntriesOnly, IntoAdapterVec};
@@ -146,6 +149,23 @@ fn sasl_bind_req(mech: &str, creds: Option<&[u8]>) -> Tag {
 }
 
 impl Ldap {
+    #[cfg(ldap3_verif)]
+    /// Verification hook: (last allocated ID, sorted IDs in use).
+    pub fn verif_msgmap(&self) -> (i32, Vec<i32>) {
+        let msgmap = self.msgmap.lock().expect("msgmap mutex (verif)");
+        let mut ids: Vec<i32> = msgmap.1.iter().copied().collect();
+        ids.sort_unstable();
+        (msgmap.0, ids)
+    }
+
+    #[cfg(ldap3_verif)]
+    /// Verification hook: position the ID counter and preset the in-use set.
+    pub fn verif_set_msgmap(&self, last: i32, ids: &[i32]) {
+        let mut msgmap = self.msgmap.lock().expect("msgmap mutex (verif)");
+        msgmap.0 = last;
+        msgmap.1 = ids.iter().copied().collect();
+    }
+
     fn next_msgid(&mut self) -> i32 {
         let mut msgmap = self.msgmap.lock().expect("msgmap mutex (inc id)");
         let last_ldap_id = msgmap.0;
